@@ -4,7 +4,10 @@
    event fails exactly when there is no key in force, and otherwise EVERY value it produced is attributed by the harness to
    exactly the (key, salt, info) of [key_in_force] at that point of the history, decrypts to the original, and is framed as
    Base64.v says), equal data under equal triples gave equal digests throughout the history ([det_ok]), the values produced
-   under concurrent rotation each come from one rotation, and the caller's slices were left alone.
+   under concurrent rotation each come from one rotation, every event that was rotated part way through from its own Tags()
+   callback is accepted ([cb_accepted]: options fixed at its start; values before the rotation selected in the state it started
+   in, values after it in the rotated state; the next event under key_in_force of the rotated state), and the caller's slices
+   were left alone.
 
    Leniencies, stated where they sit:
    * identities are interned by the harness before they reach Coq; it folds what the cryptography cannot tell apart: a nil and
@@ -183,10 +186,100 @@ Proof.
   - destruct H as [-> ->]. rewrite !N.eqb_refl. reflexivity.
 Qed.
 
+(* ---------- an event rotated from its own Tags() callback ---------- *)
+(* The event fails exactly when the model's head of Process does (no wrapper, or wrapper info with an empty event id).  Otherwise
+   it fixed its options eo at its start, in state cb_init; every value produced BEFORE the callback is attributed to the triple
+   encrypt() / hmacSha256() select under eo in state cb_init, every value produced AFTER it to the triple they select under the
+   SAME eo in the rotated state (for an event with wrapper info that is the key in force at its start, whatever was rotated:
+   cb_ewi_triple_fixed; for a plain event it is the rotated filter's own triple: cb_plain_triple), and the values of the next,
+   plain, event to key_in_force of the rotated state. *)
+Definition cb_accepted (c : cbcase) : Prop :=
+  match event_opts N m_derive (cb_init c) (cb_ewi c) with
+  | None => cb_obs c = CbErr
+  | Some eo =>
+      exists t0 t1 t2 os1 os2 os3,
+        triple_of (cb_init c) eo = Some t0 /\ triple_of (cb_rotated c) eo = Some t1 /\ kif (cb_rotated c) None = Some t2 /\
+        cb_obs c = CbValues os1 os2 os3 /\
+        Forall2 (fun v o => value_ok t0 (fst v) o) (cb_pre c) os1 /\
+        Forall2 (fun v o => value_ok t1 (fst v) o) (cb_post c) os2 /\
+        Forall2 (fun v o => value_ok t2 (fst v) o) (cb_after c) os3
+  end.
+
+(* once an event has started, a wrapper is selected in every later filter state: rotations never remove one *)
+Lemma triple_of_some st ewi eo st' : event_opts N m_derive st ewi = Some eo ->
+  (f_wrap st <> None -> f_wrap st' <> None) -> exists t, triple_of st' eo = Some t.
+Proof.
+  unfold Crypto.event_opts, triple_of, sel_wrap. intros H Hw. destruct ewi as [[[id s] i]|].
+  - destruct (f_wrap st) as [w|]; [|discriminate]. destruct id; [discriminate|]. injection H as <-. cbn [o_wrap orelse]. eexists. reflexivity.
+  - destruct (f_wrap st) as [w|] eqn:E; [|discriminate]. injection H as <-. cbn [no_opts o_wrap orelse].
+    destruct (f_wrap st') as [w'|]; [eexists; reflexivity|]. exfalso. apply Hw; [discriminate|reflexivity].
+Qed.
+Lemma rotate_keeps_wrapper (st : fstate N) w s i : f_wrap st <> None -> f_wrap (rotate N st w s i) <> None.
+Proof. unfold rotate. cbn [f_wrap]. destruct w; cbn [orelse]; [discriminate|auto]. Qed.
+Lemma started_has_wrapper st ewi eo : event_opts N m_derive st ewi = Some eo -> f_wrap st <> None.
+Proof.
+  unfold Crypto.event_opts. destruct ewi as [[[id s] i]|]; destruct (f_wrap st); try discriminate; intros _; discriminate.
+Qed.
+
+Lemma cb_mm_iff c : cb_mm c = [] <-> cb_accepted c.
+Proof.
+  unfold cb_mm, cb_accepted. destruct (event_opts N m_derive (cb_init c) (cb_ewi c)) as [eo|] eqn:Eo.
+  - pose proof (started_has_wrapper _ _ _ Eo) as Hw.
+    destruct (triple_of_some _ _ _ (cb_init c) Eo (fun h => h)) as [t0 E0].
+    destruct (triple_of_some _ _ _ (cb_rotated c) Eo) as [t1 E1].
+    { intros _. unfold cb_rotated. destruct (cb_rot c) as [[w s] i]. apply rotate_keeps_wrapper. exact Hw. }
+    assert (exists t2, kif (cb_rotated c) None = Some t2) as [t2 E2].
+    { unfold Crypto.key_in_force, cb_rotated. destruct (cb_rot c) as [[w s] i].
+      pose proof (rotate_keeps_wrapper (cb_init c) w s i Hw) as Hr. destruct (f_wrap (rotate N (cb_init c) w s i)); [eexists; reflexivity|contradiction]. }
+    rewrite E0, E1, E2. destruct (cb_obs c) as [| |os1 os2 os3]; split; intros H; try discriminate;
+      try (destruct H as (? & ? & ? & ? & ? & ? & _ & _ & _ & H & _); discriminate).
+    + apply app_nil_both in H as [H1 H2]. apply app_nil_both in H2 as [H2 H3].
+      exists t0, t1, t2, os1, os2, os3. repeat split; try reflexivity; apply check_values_iff; assumption.
+    + destruct H as (t0' & t1' & t2' & o1 & o2 & o3 & Ha & Hb & Hc & Hd & H1 & H2 & H3).
+      injection Ha as <-. injection Hb as <-. injection Hc as <-. injection Hd as <- <- <-.
+      apply check_values_iff in H1. apply check_values_iff in H2. apply check_values_iff in H3. rewrite H1, H2, H3. reflexivity.
+  - destruct (cb_obs c); split; intros H; try reflexivity; try discriminate.
+Qed.
+
+(* what the triples of an accepted callback event are: an event WITH wrapper info is, before and after the rotation, under the key
+   in force at its start; a plain event under the triple of the filter state each value is produced in; and the value the model
+   produces in that state (Crypto.crun on the schedule, CryptoProofs.callback_schedule) is the value under that triple *)
+Lemma cb_ewi_triple_fixed st e eo st' : event_opts N m_derive st (Some e) = Some eo -> triple_of st' eo = kif st (Some e).
+Proof. exact (started_event_triple N m_derive st e eo st'). Qed.
+Lemma cb_plain_triple st' : triple_of st' (no_opts N) = kif st' None.
+Proof. exact (plain_event_triple N m_derive st'). Qed.
+Lemma triple_of_value enc hkdf hmac st o t c m :
+  triple_of st o = Some t -> value_out N enc hkdf hmac st o c m = Some (value_under N enc hkdf hmac t c m).
+Proof.
+  unfold triple_of. intros H. rewrite (selected_value N enc hkdf hmac st o c m). destruct (sel_wrap N st o); [|discriminate]. injection H as <-. reflexivity.
+Qed.
+
+(* an accepted callback event WITH wrapper info: every value, before and after the rotation, under key_in_force at its start *)
+Theorem cb_accepted_ewi c e t :
+  cb_accepted c -> cb_ewi c = Some e -> kif (cb_init c) (Some e) = Some t ->
+  exists os1 os2 os3, cb_obs c = CbValues os1 os2 os3 /\
+    Forall2 (fun v o => value_ok t (fst v) o) (cb_pre c) os1 /\ Forall2 (fun v o => value_ok t (fst v) o) (cb_post c) os2.
+Proof.
+  unfold cb_accepted. intros H He Hk. rewrite He in H.
+  pose proof (opts_key_in_force N d_enc m_derive d_hkdf d_hmac (cb_init c) (Some e)) as P. rewrite Hk in P.
+  destruct (event_opts N m_derive (cb_init c) (Some e)) as [eo|] eqn:Eo; [|contradiction].
+  destruct H as (t0 & t1 & t2 & os1 & os2 & os3 & H0 & H1 & _ & Ho & F1 & F2 & _).
+  rewrite (cb_ewi_triple_fixed _ _ _ _ Eo), Hk in H0. rewrite (cb_ewi_triple_fixed _ _ _ _ Eo), Hk in H1.
+  injection H0 as <-. injection H1 as <-. exists os1, os2, os3. auto.
+Qed.
+
+Lemma flat_map_nil_iff {A B} (f : A -> list B) l : flat_map f l = [] <-> Forall (fun a => f a = []) l.
+Proof.
+  induction l as [|a r IH]; cbn [flat_map]; split; intros H; try constructor; try reflexivity.
+  - apply app_nil_both in H. tauto.
+  - apply IH. apply app_nil_both in H. tauto.
+  - inversion H as [|? ? Ha Hr]; subst. rewrite Ha. apply IH. exact Hr.
+Qed.
+
 Definition case_accepted (c : ccase) : Prop :=
   accepted (cc_init c) [] (cc_steps c) /\
   Forall one_rotation (cc_conc c) /\      (* every HMAC value produced under concurrent rotation comes from ONE rotation's (wrapper, salt, info) *)
-  Forall one_rotation (cc_cb c) /\        (* likewise for the event whose own callback rotates the filter *)
+  Forall cb_accepted (cc_cbs c) /\        (* the events whose own callback rotates the filter: each value under the triple the model selects *)
   cc_caller c = true.                     (* the salt / info slices the caller configured the filters with kept their bytes *)
 
 Theorem mismatches_nil_iff : forall cs, mismatches cs = [] <-> Forall case_accepted cs.
@@ -195,11 +288,14 @@ Proof.
   unfold mismatches in *. cbn [flat_map]. split.
   - intros H. apply app_nil_both in H as [H1 H2]. constructor; [|apply IH; exact H2].
     apply app_nil_both in H1 as [Ha Hb]. apply app_nil_both in Hb as [Hb Hc]. apply app_nil_both in Hc as [Hc Hd].
-    apply map_nil in Ha. apply run_steps_nil_iff in Ha. apply ite_nil in Hb. apply ite_nil in Hc. apply ite_nil in Hd.
-    apply conc_ok_iff in Hb. apply conc_ok_iff in Hc. repeat split; assumption.
+    apply map_nil in Ha. apply run_steps_nil_iff in Ha. apply ite_nil in Hb. apply ite_nil in Hd.
+    apply conc_ok_iff in Hb. apply flat_map_nil_iff in Hc. repeat split; try assumption.
+    eapply Forall_impl; [|exact Hc]. intros cb Hm. apply map_nil in Hm. apply cb_mm_iff. exact Hm.
   - intros H. inversion H as [|c' cs' (Ha & Hb & Hc & Hd) Hf]; subst.
-    apply (run_steps_nil_iff _ _ _ 0%N) in Ha. apply conc_ok_iff in Hb. apply conc_ok_iff in Hc.
-    rewrite Ha, Hb, Hc, Hd. cbn [map app]. apply IH. exact Hf.
+    apply (run_steps_nil_iff _ _ _ 0%N) in Ha. apply conc_ok_iff in Hb.
+    assert (Hc' : flat_map (fun cb => map (fun k => (cc_id c, (0%N, 2%N, k))) (cb_mm cb)) (cc_cbs c) = []).
+    { apply flat_map_nil_iff. eapply Forall_impl; [|exact Hc]. intros cb Hm. apply cb_mm_iff in Hm. rewrite Hm. reflexivity. }
+    rewrite Ha, Hb, Hc', Hd. cbn [map app]. apply IH. exact Hf.
 Qed.
 Print Assumptions mismatches_nil_iff.
 
